@@ -221,3 +221,58 @@ Lemma explicit_width_alone_overridden_oval :
                          tw := 0; th := 0; dw := Some 50%Z; dh := None; icon := false; linktip := false;
                          oc := 1 # 15; os := 1 |}) == 160.
 Proof. vm_compute. reflexivity. Qed.
+
+(* ---- the oval, relative to its trigonometric oracle (see V.C27.Model) ---- *)
+
+Definition H_oval_b (i : input) : bool :=
+  let c := content i in
+  let p := paddings i in
+  H_pad_b (oc i) (os i) (inject_Z (fst c)) (inject_Z (snd c)) (fst p) (snd p)
+  && Qle_bool (- (1)) (fst p * oc i) && Qle_bool (- (1)) (snd p * os i).
+
+Lemma set_dimensions_oval_auto i :
+  k i = KOval -> dw i = None -> dh i = None -> label_empty i = false -> never_shrink i = false ->
+  set_dimensions i =
+    let r1 := fit_oval (oc i) (os i) (inject_Z (fst (content i))) (inject_Z (snd (content i)))
+                       (fst (paddings i)) (snd (paddings i)) in
+    limit_ar (fst r1) (snd r1) ovalAR.
+Proof.
+  intros K Hw Hh L NS. unfold set_dimensions, size_to_content, fit_of. rewrite K, L, NS, Hw, Hh. cbn [andb aspect1].
+  destruct (content i) as [cw ch]. destruct (paddings i) as [px py]. cbn [fst snd is_set zval Z.eqb negb orb].
+  destruct (fit_oval (oc i) (os i) (inject_Z cw) (inject_Z ch) px py). reflexivity.
+Qed.
+
+Theorem auto_size_fits_label_oval :
+  forall i cr sr,
+    k i = KOval -> dw i = None -> dh i = None -> label_empty i = false -> never_shrink i = false ->
+    (0 <= lw i <= 100000)%Z -> (0 <= lh i <= 100000)%Z ->
+    H_oval_b i = true ->
+    let r := set_dimensions i in
+    H_radius_b cr sr (fst r) (snd r) = true ->
+    Contains (inject_Z (lw i)) (inject_Z (lh i)) (inner_oval cr sr (fst r) (snd r)).
+Proof.
+  intros i cr sr K Hw Hh L NS W0 H0 HO. cbv zeta.
+  rewrite (set_dimensions_oval_auto i K Hw Hh L NS). cbv zeta.
+  assert (I : label_inside (k i) = true) by (rewrite K; reflexivity).
+  unfold H_oval_b in HO. rewrite (content_auto i Hw Hh L I) in *. cbn [fst snd] in *.
+  destruct (paddings i) as [px py]. cbn [fst snd] in *.
+  rewrite !andb_true_iff in HO. destruct HO as [[HP C1] S1]. apply Qle_bool_iff in C1, S1.
+  unfold H_pad_b in HP. rewrite andb_true_iff, !Qle_bool_iff in HP. destruct HP as [PW PH].
+  unfold fit_oval, ceilQ.
+  set (cw := inject_Z (lw i + innerLabelPadding)) in *. set (ch := inject_Z (lh i + innerLabelPadding)) in *.
+  set (pc := px * oc i) in *. set (ps := py * os i) in *.
+  assert (A0 : (0 <= Qceiling (sqrt2f * (cw + pc)))%Z) by (apply ceil_nonneg_of_gt_m1; unfold sqrt2f; lra).
+  assert (B0 : (0 <= Qceiling (sqrt2f * (ch + ps)))%Z) by (apply ceil_nonneg_of_gt_m1; unfold sqrt2f; lra).
+  destruct (limit_ar_twice_grows _ _ A0 B0) as [GW GH].
+  pose proof (Qle_ceiling (sqrt2f * (cw + pc))) as A1. pose proof (Qle_ceiling (sqrt2f * (ch + ps))) as B1.
+  match goal with |- context [limit_ar (fst ?r1) (snd ?r1) ovalAR] =>
+    set (W := fst (limit_ar (fst r1) (snd r1) ovalAR)) in *;
+    set (H := snd (limit_ar (fst r1) (snd r1) ovalAR)) in * end.
+  intros HR.
+  destruct (oval_inner_contains W H (cw + pc) (ch + ps) cr sr ltac:(lra) ltac:(lra) HR) as [[C W1] _].
+  assert (EW : cw == inject_Z (lw i) + 5) by (unfold cw, innerLabelPadding; rewrite inject_Z_plus; reflexivity).
+  assert (EH : ch == inject_Z (lh i) + 5) by (unfold ch, innerLabelPadding; rewrite inject_Z_plus; reflexivity).
+  assert (LW : inject_Z (lw i) <= 100000) by (change 100000 with (inject_Z 100000); rewrite <- Zle_Qle; lia).
+  assert (LH : inject_Z (lh i) <= 100000) by (change 100000 with (inject_Z 100000); rewrite <- Zle_Qle; lia).
+  unfold Contains in *. unfold rho in *. split; lra.
+Qed.
